@@ -4,6 +4,7 @@ package main
 
 import (
 	"fmt"
+	"regexp"
 	"go/types"
 	"os"
 	"path/filepath"
@@ -144,13 +145,6 @@ func (g *Gen) strLit(s string) string {
 	n := fmt.Sprintf("lit%d", len(g.strlits))
 	g.strlits[s] = n
 	g.litOrder = append(g.litOrder, s)
-	g.litDecls = append(g.litDecls, fmt.Sprintf("(declare-const %s Str) ; %q", n, trunc(s, 40)))
-	g.litDecls = append(g.litDecls, fmt.Sprintf("(assert (= (len_Str %s) %d))", n, len(s)))
-	if len(s) <= 80 {
-		for i := 0; i < len(s); i++ {
-			g.litDecls = append(g.litDecls, fmt.Sprintf("(assert (= (at_Str %s %d) %d))", n, i, s[i]))
-		}
-	}
 	return n
 }
 
@@ -161,14 +155,31 @@ func trunc(s string, n int) string {
 	return s
 }
 
-// literalFacts: distinct literals are distinct values; equal-content literal is the same constant already.
-func (g *Gen) literalFacts() []string {
-	out := append([]string{}, g.litDecls...)
-	if len(g.litOrder) > 1 {
-		var ns []string
-		for _, s := range g.litOrder {
-			ns = append(ns, g.strlits[s])
+var litRe = regexp.MustCompile(`\blit[0-9]+\b`)
+
+// literalFacts declares the string literals mentioned in the query text: their length, their bytes
+// (short literals only) and pairwise distinctness.
+func (g *Gen) literalFacts(query string) []string {
+	used := map[string]bool{}
+	for _, m := range litRe.FindAllString(query, -1) {
+		used[m] = true
+	}
+	var out, ns []string
+	for _, s := range g.litOrder {
+		n := g.strlits[s]
+		if !used[n] {
+			continue
 		}
+		ns = append(ns, n)
+		out = append(out, fmt.Sprintf("(declare-const %s Str) ; %q", n, trunc(s, 40)))
+		out = append(out, fmt.Sprintf("(assert (= (len_Str %s) %d))", n, len(s)))
+		if len(s) <= 12 {
+			for i := 0; i < len(s); i++ {
+				out = append(out, fmt.Sprintf("(assert (= (at_Str %s %d) %d))", n, i, s[i]))
+			}
+		}
+	}
+	if len(ns) > 1 {
 		out = append(out, "(assert (distinct "+strings.Join(ns, " ")+"))")
 	}
 	return out
@@ -258,7 +269,14 @@ func (g *Gen) zero(t types.Type) string {
 		return "(" + si.Ctor + " " + strings.Join(as, " ") + ")"
 	}
 	if at, ok := t.Underlying().(*types.Array); ok {
-		return "((as const " + s + ") " + g.zero(at.Elem()) + ")"
+		z := "zeroarr_" + mangle(s)
+		if !g.zeroFns[z] {
+			g.zeroFns[z] = true
+			ez := g.zero(at.Elem())
+			g.reg.decls = append(g.reg.decls, fmt.Sprintf("(declare-const %s %s)", z, s),
+				fmt.Sprintf("(assert (forall ((i Int)) (! (= (select %s i) %s) :pattern ((select %s i)))))", z, ez, z))
+		}
+		return z
 	}
 	// opaque sort: a fixed zero constant
 	z := "zero_" + mangle(s)
